@@ -3,16 +3,7 @@
 //! usage: svcheck <ID> [--tier quick|thorough] [--replay FILE]
 //! exit 0: held on everything explored; 1: VIOLATION line(s) printed; 2: inconclusive / infrastructure.
 
-#[macro_use]
-mod engine;
-mod exact;
-mod fl;
-mod gen;
-mod meanref;
-mod model;
-mod props;
-mod refmath;
-
+use svcheck::{engine, meanref, props};
 use engine::{Run, Tier};
 
 fn main() {
@@ -22,6 +13,10 @@ fn main() {
         std::process::exit(2);
     }
     let id = args[0].to_uppercase();
+    if id == "C11FUZZ" {
+        // merge the statistics of a finished libFuzzer campaign into evidence/C11.json (written just before by C11)
+        std::process::exit(merge_fuzz(&args[1..]));
+    }
     let mut tier = match std::env::var("VERIF_TIER").ok().as_deref() {
         Some("thorough") => Tier::Thorough,
         _ => Tier::Quick,
@@ -80,5 +75,32 @@ fn refmath_selftest_cli() -> i32 {
             println!("INCONCLUSIVE: oracle self-test failed: {e}");
             2
         }
+    }
+}
+
+fn merge_fuzz(a: &[String]) -> i32 {
+    let get = |i: usize| a.get(i).and_then(|s| s.parse::<f64>().ok()).unwrap_or(0.0);
+    let path = engine::verif_dir().join("evidence").join("C11.json");
+    let Ok(text) = std::fs::read_to_string(&path) else {
+        println!("INCONCLUSIVE: no evidence/C11.json to merge fuzz statistics into");
+        return 2;
+    };
+    let Ok(mut v) = serde_json::from_str::<serde_json::Value>(&text) else { return 2 };
+    let runs = get(0) as u64;
+    v["coverage"]["fuzz"] = serde_json::json!({
+        "engine": "libFuzzer via cargo-fuzz 0.13 (target harness/fuzz/fuzz_targets/c11_total.rs, same classifier as the other drivers; overflow checks on, debug assertions off)",
+        "runs": runs, "coverage_edges": get(1) as u64, "features": get(2) as u64, "corpus_inputs": get(3) as u64, "seconds": get(4), "crashed": get(5) != 0.0,
+        "seed_corpus": "harness/fuzz/seeds (one input per entry point x 3 flag patterns + the empty input)",
+        "note": "a libFuzzer campaign is pinned by -seed/-runs only approximately; the saved input is the reproducible unit"
+    });
+    if let Some(e) = v["coverage"]["evaluations"].as_u64() {
+        v["coverage"]["evaluations"] = serde_json::json!(e + runs);
+    }
+    if let Some(w) = v["wall_s"].as_f64() {
+        v["wall_s"] = serde_json::json!(w + get(4));
+    }
+    match std::fs::write(&path, serde_json::to_string_pretty(&v).unwrap()) {
+        Ok(()) => 0,
+        Err(_) => 2,
     }
 }
